@@ -323,6 +323,149 @@ type Scenario struct {
 	DupCols map[string]bool `json:"-"`
 	// optional filter query expectations: op index -> expected timestamps
 	Expect map[int][]uint64 `json:"-"`
+	// events are identified by this (unique, integer) field instead of by their timestamp: scenarios in
+	// which several events carry the same timestamp
+	IdKey string `json:"id_key,omitempty"`
+	// reader-reuse scenario: the plan of its blocks (the documents are regenerated from it)
+	Plan []blockPlan `json:"plan,omitempty"`
+}
+
+// ---------- reader-reuse scenarios ----------
+// A block worker of a segment search keeps one TimeRangeReader and one SegmentFileReader per column for
+// all blocks it is handed (read buffers, dictionary tables are reused).  These scenarios put blocks of
+// very different sizes into one segment - timestamp payloads on both sides of 64 KiB (the decoder counts
+// records through a uint16), of the buffer pool classes (1/4/32/64/128 KiB), dictionary and raw blocks -
+// let all of them end at the same millisecond (one search round), and run the search with one or two
+// block workers so that one reader meets many blocks, in the order Go's map iteration chooses.
+type blockPlan struct {
+	N     int    `json:"n"`      // events
+	Width int    `json:"width"`  // bytes per timestamp delta (1,2,4,8) = class of HighTs-LowTs
+	Diff  uint64 `json:"diff"`   // HighTs - LowTs
+	High  uint64 `json:"high"`   // HighTs
+}
+
+var widthDiffs = map[int][]uint64{1: {0, 1, 200, 255}, 2: {256, 40000, 65535}, 4: {65536, 1 << 24, 4294967295}, 8: {4294967296, 5000000000, 1 << 34}}
+
+// record counts whose timestamp payload (10 + n*width bytes) lies just around 64 KiB
+func near64K(r *vhlib.Rng, width int) int {
+	return 65536/width + vhlib.Pick(r, []int{-2, -1, 0, 1, 2, 3, 5, 8, 13})
+}
+
+func genReuse(r *vhlib.Rng, name string, big int, procs int) *Scenario {
+	sc := &Scenario{Name: name, Stream: "main", Probe: true, ToCoq: true, NoE2E: true, DupCols: map[string]bool{}, Expect: map[int][]uint64{}, IdKey: "id"}
+	push := func(op Op) {
+		sc.Ops = append(sc.Ops, op)
+		sc.Range = append(sc.Range, [2]int{})
+	}
+	push(Op{Kind: "procs", N: procs})
+	nBlocks := 3 + r.Intn(4)
+	sameHigh := procs == 1 || r.Chance(60)
+	high := tsBase + tsGap
+	smallSizes := []int{1, 2, 20, 70, 120, 300, 480, 520, 600}
+	if big > 0 {
+		nBlocks = 6 + r.Intn(2) // the small blocks next to the very large one cover every delta width
+	}
+	widths := []int{1, 2, 4, 8, 1, 2, 8}
+	for i := len(widths) - 1; i > 0; i-- {
+		j := r.Intn(i + 1)
+		widths[i], widths[j] = widths[j], widths[i]
+	}
+	for b := 0; b < nBlocks; b++ {
+		w := vhlib.Pick(r, []int{1, 1, 2, 2, 4, 8})
+		n := vhlib.Pick(r, smallSizes) + r.Intn(30)
+		if big > 0 {
+			w, n = widths[b], vhlib.Pick(r, smallSizes[3:])+r.Intn(30)
+		}
+		sc.Plan = append(sc.Plan, blockPlan{N: n, Width: w})
+	}
+	if big > 0 {
+		// one block with more than 64 KiB of timestamps, not the last one ingested
+		at := r.Intn(nBlocks - 1)
+		sc.Plan[at] = blockPlan{N: near64K(r, big), Width: big}
+		if sc.Plan[at].N*big < 65536 {
+			sc.Plan[at].N = 65536/big + 1 + r.Intn(9)
+		}
+	}
+	id := 0
+	for b := range sc.Plan {
+		bp := &sc.Plan[b]
+		bp.Diff = vhlib.Pick(r, widthDiffs[bp.Width])
+		if bp.N == 1 {
+			bp.Diff, bp.Width = 0, 1
+		}
+		bp.High = high
+		if !sameHigh {
+			bp.High = high - uint64(b)*7
+		}
+		var docs []string
+		lo := len(sc.Events)
+		for j := 0; j < bp.N; j++ {
+			ts := bp.High
+			switch {
+			case j == 0:
+			case j == 1:
+				ts = bp.High - bp.Diff
+			default:
+				ts = bp.High - r.U64()%(bp.Diff+1)
+			}
+			g := fmt.Sprintf("w%d", r.Intn(5))
+			if bp.N > 2000 {
+				// all-distinct in a very large block: a raw block (a dictionary block of thousands of records costs the
+				// Coq evaluation of the model's ReadDictEnc seconds per read; the column is a dictionary block in the
+				// small blocks of the same segment)
+				g = fmt.Sprintf("w%d", id)
+			}
+			fs := []Field{{"id", Val{K: "i", I: int64(id)}}, {"g", Val{K: "s", S: g}}}
+			d := fmt.Sprintf(`{"timestamp":%d,"id":%d,"g":%q`, ts, id, g)
+			if r.Chance(70) {
+				p := vhlib.Pick(r, strPool[1:]) + strconv.Itoa(r.Intn(1000))
+				fs = append(fs, Field{"p", Val{K: "s", S: p}})
+				d += `,"p":` + escStr(r, p, false)
+			}
+			d += "}"
+			sc.Events = append(sc.Events, Event{Ts: ts, Doc: d, Fields: fs})
+			docs = append(docs, d)
+			id++
+		}
+		sc.Ops = append(sc.Ops, Op{Kind: "ingest", Docs: docs})
+		sc.Range = append(sc.Range, [2]int{lo, len(sc.Events)})
+		push(Op{Kind: "flush", Probe: true})
+	}
+	// orders for the byte-level reread: by decreasing size, by increasing size, two random ones
+	idx := make([]int, nBlocks)
+	for i := range idx {
+		idx[i] = i
+	}
+	desc := append([]int{}, idx...)
+	sort.SliceStable(desc, func(a, b int) bool {
+		return sc.Plan[desc[a]].N*sc.Plan[desc[a]].Width > sc.Plan[desc[b]].N*sc.Plan[desc[b]].Width
+	})
+	asc := make([]int, nBlocks)
+	for i := range desc {
+		asc[nBlocks-1-i] = desc[i]
+	}
+	orders := [][]int{desc, asc}
+	for k := 0; k < 2; k++ {
+		o := append([]int{}, idx...)
+		for i := len(o) - 1; i > 0; i-- {
+			j := r.Intn(i + 1)
+			o[i], o[j] = o[j], o[i]
+		}
+		orders = append(orders, o)
+	}
+	push(Op{Kind: "reread", Orders: orders})
+	// match-all, several times (every search hands the blocks to its workers in a new order).  One page per
+	// search: events of different blocks share a timestamp here, and from/size paging over separate searches
+	// has no stable order among equal timestamps (pages overlap / leave gaps) - that is not what C01 is about
+	total := len(sc.Events)
+	for k := 0; k < 4; k++ {
+		push(Op{Kind: "query", Page: total + 100, Nulls: true})
+	}
+	push(Op{Kind: "rotate"})
+	for k := 0; k < 2; k++ {
+		push(Op{Kind: "query", Page: total + 100, Nulls: true})
+	}
+	return sc
 }
 
 const tsGap = uint64(1) << 34
